@@ -1,23 +1,46 @@
-"""C20: write, then extract, one large synthetic member in fresh processes and measure peak resident memory.
-Run as:  python -m harness.bigmem <json case>   (prints one JSON line)."""
+"""C20: write, or extract, large synthetic members in a FRESH process and measure its peak resident memory.
+
+Run as   python -m harness.bigmem '<json case>'   and read one JSON line:
+  {"events": [...], "base_kb": .., "peak_kb": .., "wall": .., "error": null | "Type: text", ...}
+
+events (the trace validated by TLC against TraceMem):
+  new    {block, limit}                          one SevenZipDecompressor came to life
+  call   {m, cur, d, t, res, buf, h, dr}         one SevenZipDecompressor.decompress(fp, m): bytes parked before (cur), packed bytes
+                                                 read (d), decoder output of the call (t), handed out (res), parked after (buf),
+                                                 h: a decoder still held data of earlier input at entry, dr: what draining it gave (-1: not tried)
+  wread  {n, block}                              the compressor's largest single read from the member's source
+  wret   {held}                                  after a write call returned: members whose content the archive object still references
+  rss    {phase, base, peak}                     KiB; peak resident set of the process, base = after importing py7zr
+Numbers are saturated at 2^31-1 (TLC's integers).
+"""
 import io
 import json
 import os
+import random
 import resource
 import sys
 import time
 
+SAT = (1 << 31) - 1
+
+
+def sat(x):
+    return int(x) if x < SAT else SAT
+
 
 class Synthetic(io.BufferedIOBase):
-    """size bytes generated on the fly: 'zeros', 'period' (short period) or 'random' (incompressible)"""
+    """size bytes generated on the fly: 'zeros', 'period' (61-byte period), 'text' (compressible, not trivially) or
+    'random' (incompressible, no period)"""
 
-    def __init__(self, size, texture):
+    def __init__(self, size, texture, seed=1):
         self.size, self.pos, self.texture = size, 0, texture
-        if texture == "random":
-            self.block = os.urandom(1 << 20)
-        elif texture == "period":
-            self.block = (b"0123456789abcdef" * 4)[:61] * 17200
-            self.block = self.block[: 1 << 20]
+        self.maxread = 0
+        self.rnd = random.Random(seed)
+        if texture == "period":
+            self.block = ((b"0123456789abcdef" * 4)[:61] * 17200)[: 61 * 17189]
+        elif texture == "text":
+            words = [b"alpha", b"beta", b"gamma", b"delta", b"epsilon", b"zeta", b"eta", b"theta", b"iota", b"kappa"]
+            self.block = b" ".join(self.rnd.choice(words) for _ in range(180000))[: 1 << 20]
         else:
             self.block = bytes(1 << 20)
 
@@ -40,16 +63,77 @@ class Synthetic(io.BufferedIOBase):
         n = min(n, self.size - self.pos)
         if n <= 0:
             return b""
-        off = self.pos % len(self.block)
-        out = self.block[off:off + n]
-        while len(out) < n:
-            out += self.block[: n - len(out)]
+        self.maxread = max(self.maxread, n)
+        if self.texture == "random":
+            out = self.rnd.randbytes(n)
+        else:
+            off = self.pos % len(self.block)
+            out = self.block[off:off + n]
+            while len(out) < n:
+                out += self.block[: n - len(out)]
         self.pos += n
         return out
 
 
-def rss_mb():
-    return resource.getrusage(resource.RUSAGE_SELF).ru_maxrss / 1024.0
+def rss_kb():
+    return resource.getrusage(resource.RUSAGE_SELF).ru_maxrss
+
+
+def materialise(path, size, texture, seed):
+    """a source file on disk for write()/writeall(): zeros are a sparse file, everything else is written in pieces"""
+    with open(path, "wb") as f:
+        if texture == "zeros":
+            f.truncate(size)
+            return
+        s = Synthetic(size, texture, seed)
+        while True:
+            b = s.read(1 << 20)
+            if not b:
+                break
+            f.write(b)
+
+
+def install_probe(C, events):
+    D = C.SevenZipDecompressor
+    o_init, o_dec, o_inner, o_read = D.__init__, D.decompress, D._decompress, D._read_data
+
+    def __init__(self, *a, **kw):
+        o_init(self, *a, **kw)
+        import py7zr.properties as P
+        events.append({"e": "new", "block": sat(self.block_size), "limit": sat(P.get_memory_limit())})
+
+    def _read_data(self, fp):
+        r = o_read(self, fp)
+        self._vd = getattr(self, "_vd", 0) + len(r)
+        return r
+
+    def _decompress(self, data, max_length, *a, **kw):
+        r = o_inner(self, data, max_length, *a, **kw)
+        self._vcalls.append((len(data), len(r)))
+        return r
+
+    def holding(self):
+        # independent of the code's own bookkeeping: does any decoder of the chain say it needs no input?
+        try:
+            return any(self._unpacked[i] < self._unpacksizes[i] and getattr(c, "needs_input", True) is False
+                       for i, c in enumerate(self.chain))
+        except Exception:  # noqa
+            return False
+
+    def decompress(self, fp, max_length=-1):
+        cur = len(self._buf) - self._pos
+        self._vd, self._vcalls = 0, []
+        h = holding(self)
+        res = o_dec(self, fp, max_length)
+        if max_length >= 0:
+            calls = self._vcalls
+            dr = calls[0][1] if (calls and calls[0][0] == 0 and h) else -1
+            t = calls[-1][1] if calls else -1
+            events.append({"e": "call", "m": sat(max_length), "cur": sat(cur), "d": sat(self._vd), "t": sat(t), "res": sat(len(res)),
+                           "buf": sat(len(self._buf) - self._pos), "h": bool(h), "dr": sat(dr) if dr >= 0 else -1})
+        return res
+
+    D.__init__, D.decompress, D._decompress, D._read_data = __init__, decompress, _decompress, _read_data
 
 
 def main():
@@ -57,69 +141,87 @@ def main():
     sys.path.insert(0, os.environ.get("VERIF_REPO", "/repo"))
     import py7zr
     import py7zr.compressor as C
+    import py7zr.properties as P
 
-    base = rss_mb()
-    out = {"phase": case["phase"], "base_mb": round(base, 1)}
+    if case.get("limit"):
+        lim = int(case["limit"])
+        P.get_memory_limit = lambda: lim
+        import py7zr.py7zr as M
+        M.get_memory_limit = lambda: lim
+    base = rss_kb()
+    events = []
+    out = {"phase": case["phase"], "error": None}
     t0 = time.time()
     arc = case["arc"]
-    if case["phase"] == "write":
-        filters = case["filters"]
-        with py7zr.SevenZipFile(arc, "w", filters=filters, password=case.get("password")) as z:
-            for k, (size, texture) in enumerate(case["members"]):
-                z.writef(Synthetic(size, texture), f"m{k}")
-    else:
-        maxbuf = [0]
-        orig = C.SevenZipDecompressor.decompress
+    kw = {}
+    if case.get("blocksize"):
+        kw["blocksize"] = case["blocksize"]
+    try:
+        if case["phase"] == "write":
+            with py7zr.SevenZipFile(arc, "w", filters=case["filters"], password=case.get("password"), **kw) as z:
+                if case.get("header_encryption"):
+                    z.set_encrypted_header(True)
+                block = z._block_size if hasattr(z, "_block_size") else 0
+                maxread, held = 0, 0
+                for k, (size, texture) in enumerate(case["members"]):
+                    how = case.get("how", "writef")
+                    if how == "writef":
+                        src = Synthetic(size, texture, seed=case.get("seed", 1) * 1000 + k)
+                        z.writef(src, f"m{k}")
+                        maxread = max(maxread, src.maxread)
+                        del src
+                    elif how == "writestr":
+                        z.writestr(Synthetic(size, texture, seed=k).read(), f"m{k}")
+                    else:  # write(path)
+                        z.write(os.path.join(case["srcdir"], f"m{k}"), f"m{k}")
+                    held = max(held, sum(1 for fi in z.header.files_info.files if fi.get("data") is not None))
+                events.append({"e": "wread", "n": sat(maxread), "block": sat(block)})
+                events.append({"e": "wret", "held": held})
+        else:
+            install_probe(C, events)
+            with py7zr.SevenZipFile(arc, "r", password=case.get("password"), **kw) as z:
+                if case["phase"] == "extract-path":
+                    z.extractall(case["out"])
+                    out["sizes"] = [os.path.getsize(os.path.join(case["out"], f"m{k}")) for k in range(len(case["members"]))]
+                elif case["phase"] == "extract-factory":
+                    class Count(py7zr.io.Py7zIO):
+                        def __init__(self):
+                            self.n = 0
 
-        def dec(self, fp, max_length=-1):
-            r = orig(self, fp, max_length)
-            b = len(self._buf) - self._pos
-            if b > maxbuf[0]:
-                maxbuf[0] = b
-            return r
+                        def write(self, s):
+                            self.n += len(s)
+                            return len(s)
 
-        C.SevenZipDecompressor.decompress = dec
-        with py7zr.SevenZipFile(arc, "r", password=case.get("password")) as z:
-            if case["phase"] == "extract-path":
-                z.extractall(case["out"])
-                out["sizes"] = [os.path.getsize(os.path.join(case["out"], f"m{k}")) for k in range(len(case["members"]))]
-            elif case["phase"] == "extract-factory":
-                class Count(py7zr.io.Py7zIO):
-                    def __init__(self):
-                        self.n = 0
+                        def read(self, size=None):
+                            return b""
 
-                    def write(self, s):
-                        self.n += len(s)
-                        return len(s)
+                        def seek(self, offset, whence=0):
+                            return 0
 
-                    def read(self, size=None):
-                        return b""
+                        def flush(self):
+                            pass
 
-                    def seek(self, offset, whence=0):
-                        return 0
+                        def size(self):
+                            return self.n
 
-                    def flush(self):
-                        pass
+                    class Fac(py7zr.io.WriterFactory):
+                        def __init__(self):
+                            self.p = {}
 
-                    def size(self):
-                        return self.n
+                        def create(self, filename):
+                            self.p[filename] = Count()
+                            return self.p[filename]
 
-                class Fac(py7zr.io.WriterFactory):
-                    def __init__(self):
-                        self.p = {}
-
-                    def create(self, filename):
-                        self.p[filename] = Count()
-                        return self.p[filename]
-
-                f = Fac()
-                z.extractall(factory=f)
-                out["sizes"] = [f.p[f"m{k}"].n for k in range(len(case["members"]))]
-            else:
-                out["testzip"] = z.testzip()
-        out["maxbuf_mb"] = round(maxbuf[0] / (1 << 20), 1)
-    out["peak_mb"] = round(rss_mb(), 1)
-    out["wall"] = round(time.time() - t0, 1)
+                    f = Fac()
+                    z.extractall(factory=f)
+                    out["sizes"] = [f.p[f"m{k}"].n if f"m{k}" in f.p else -1 for k in range(len(case["members"]))]
+                else:
+                    out["testzip"] = z.testzip()
+    except BaseException as ex:  # noqa
+        out["error"] = f"{type(ex).__name__}: {str(ex)[:200]}"
+    peak = rss_kb()
+    events.append({"e": "rss", "phase": case["phase"], "base": sat(base), "peak": sat(peak)})
+    out.update(events=events, base_kb=base, peak_kb=peak, wall=round(time.time() - t0, 1))
     print(json.dumps(out))
 
 
